@@ -99,11 +99,37 @@ def exec_on_symbol(qr, op):
         if kind == 'uri':
             kw = {a: colors.to_arg(b) for a, b in op['opts'].items()}
             return ('out', (qr.png_data_uri(**kw) if op['which'] == 'png' else qr.svg_data_uri(**kw)).encode('utf-8'))
+        if kind == 'save_fail':
+            # the target cannot be opened / written: the call must fail without changing the symbol
+            k = op['kind']
+            kw = {a: colors.to_arg(b) for a, b in op['opts'].items()}
+            try:
+                if op.get('how') == 'stream':
+                    qr.save(_FailingStream(op.get('after', 0)), kind=k, **kw)
+                else:
+                    qr.save('/nonexistent-directory-c15/sub/out.' + k, **kw)
+            except Exception as ex:  # noqa: BLE001
+                return ('failed', type(ex).__name__ in ('OSError', 'FileNotFoundError', 'IOError', 'NotADirectoryError'))
+            return ('failed', 'no exception')
         if kind == 'symbol_size':
             return ('val', repr((qr.symbol_size(op['scale'], op['border']), qr.designator, qr.default_border_size)))
     except Exception as ex:  # noqa: BLE001
         return ('exc', type(ex).__name__)
     raise ValueError(kind)
+
+
+class _FailingStream:
+    """A stream whose write() raises OSError after a number of calls."""
+
+    def __init__(self, after):
+        self.after = after
+        self.name = 'failing'
+
+    def write(self, data):
+        if self.after <= 0:
+            raise OSError('disk full')
+        self.after -= 1
+        return len(data)
 
 
 def table_hash(names=None):
@@ -477,12 +503,22 @@ class Sched:
         return self.results
 
 
-def run_schedule_child(jobs, schedule, free):
+def run_schedule_child(jobs, schedule, free, shared=None):
     import segno
     segno_dir = os.path.dirname(os.path.abspath(segno.__file__))
+    shared_syms = None
+    if shared is not None:
+        shared_syms, _res = exec_make(shared)
+
+    def one(d):
+        if d.get('sym') == 'SHARED':
+            if shared_syms is None:
+                return ('no-symbol', None)
+            return exec_on_symbol(shared_syms[d.get('index', 0) % len(shared_syms)], d)
+        return run_single(d)
 
     def job(descs):
-        return lambda: [run_single(d) for d in descs]
+        return lambda: [one(d) for d in descs]
     fns = [job(d) for d in jobs]
     if free:
         sys.setswitchinterval(1e-6)
@@ -503,7 +539,8 @@ def run_schedule_child(jobs, schedule, free):
 
 def run_schedule(case):
     devs = []
-    status, val = in_child(run_schedule_child, case['jobs'], [tuple(x) for x in case.get('schedule', [])], bool(case.get('free')))
+    status, val = in_child(run_schedule_child, case['jobs'], [tuple(x) for x in case.get('schedule', [])], bool(case.get('free')),
+                           case.get('shared'))
     if status == 'child-died':
         return [Dev('C15/schedule-process-died', 'the process running the threads died')], 0
     if status != 'ok':
@@ -516,6 +553,8 @@ def run_schedule(case):
             devs.append(Dev('C15/thread-exception-%s' % got[1], 'thread %d: %s' % (tid, got[2])))
             continue
         for d, g in zip(descs, got):
+            if d.get('sym') == 'SHARED':
+                d = dict(d, sym=case['shared'])
             exp = pristine(d)
             if g != exp:
                 devs.append(Dev('C15/concurrent-result-differs-%s' % d['op'], 'thread %d: %s differs from the single-threaded answer: %s vs %s'
@@ -604,6 +643,9 @@ def symbol_op(draw):
     if k < 8:
         return {'op': 'terminal', 'border': draw(st.sampled_from([None, 0, 1])), 'compact': draw(st.booleans())}
     if k < 9:
+        if draw(st.booleans()):
+            return {'op': 'save_fail', 'kind': draw(st.sampled_from(KINDS)), 'opts': {}, 'how': draw(st.sampled_from(['path', 'stream'])),
+                    'after': draw(st.integers(0, 3))}
         return {'op': 'uri', 'which': draw(st.sampled_from(['png', 'svg'])), 'opts': {'scale': draw(st.sampled_from([1, 2]))}}
     return {'op': 'symbol_size', 'scale': draw(st.sampled_from([1, 2.5])), 'border': draw(st.sampled_from([None, 0]))}
 
@@ -768,16 +810,35 @@ def schedule_cases(draw, free=False):
     same = draw(st.integers(0, 2)) == 0
     first = draw(resolved_desc())
     jobs = []
-    if draw(st.integers(0, 9)) < 4:
+    shared = None
+    flavour = draw(st.integers(0, 9))
+    if flavour < 4:
         jobs = draw(contention_jobs(n))
+    elif flavour < 6:
+        # all threads work on one symbol which was created before they start
+        shared = draw(make_desc())
+        shared['kw'].pop('symbol_count', None)
+        if shared['fn'] == 'make_sequence':
+            shared['fn'] = 'make_qr'
+            shared['kw'].pop('version', None)
+        for _ in range(n):
+            ops = []
+            for _j in range(draw(st.integers(1, 3))):
+                op = draw(symbol_op())
+                if op['op'] == 'save_fail':
+                    op = {'op': 'save', 'kind': 'png', 'opts': {}}
+                ops.append(dict(op, sym='SHARED', index=0))
+            jobs.append(ops)
     for i in range(n if not jobs else 0):
         k = draw(st.integers(1, 3))
         jobs.append([first if (same and j == 0) else draw(resolved_desc()) for j in range(k)])
     case = {'what': 'schedule', 'jobs': jobs}
+    if shared is not None:
+        case['shared'] = shared
     if free:
         case['free'] = True
     else:
-        case['schedule'] = draw(st.lists(st.tuples(st.integers(0, n - 1), st.one_of(st.integers(1, 40), st.integers(1, 400))), min_size=10, max_size=120))
+        case['schedule'] = draw(st.lists(st.tuples(st.integers(0, n - 1), st.one_of(st.integers(1, 40), st.integers(1, 40), st.integers(1, 400), st.integers(2000, 30000))), min_size=10, max_size=120))
     return case
 
 
